@@ -358,7 +358,7 @@ class _QLR(Entry):
         d = d_reg(draw)
         n = len(d["y"])
         noise = draw(st.lists(st.integers(-999983, 999983).filter(lambda v: v != 0), min_size=n, max_size=n, unique=True))
-        d["y"] = [v + e / 1e6 for v, e in zip(d["y"], noise)]
+        d["y"] = [v + (1 if e > 0 else -1) * (0.01 + 0.99 * abs(e) / 999983.0) for v, e in zip(d["y"], noise)]
         return d
 
     def attributes(self, est):
